@@ -114,6 +114,14 @@ func genCase(r *rand.Rand, strategy string) *acase {
 			if strategy == "deadline" && r.Intn(2) == 0 {
 				rs.Second = genBid(r, headers)
 				headers = append(headers, rs.Second.Header)
+				if r.Intn(3) == 0 {
+					// the same payload offered again at another price (the value is not part of the header),
+					// possibly with a signature that does not verify
+					cp := *rs.Bid
+					cp.Value = uint64(1+r.Intn(14)) * 1000
+					cp.BadSig = r.Intn(2) == 0
+					rs.Second = &cp
+				}
 			}
 		}
 		if r.Intn(3) == 0 {
@@ -466,6 +474,91 @@ func runCase(c *harness.Ctx, id string, ac *acase, uniq int) {
 	}
 }
 
+// concurrentServe: several beacon nodes ask the block relay for the bid of a proposer it has held no auction for, at the
+// same time. The first auction finds no acceptable bid; a relay starts offering one while that auction is still under
+// way. Whatever the interleaving, there was one auction, it had no winner, so every caller is told "no bid".
+func concurrentServe(c *harness.Ctx, id string, r *rand.Rand, uniq int) {
+	ctx := context.Background()
+	parent := phase0.Hash32{7, 7, 7}
+	clock := harness.NewVClock(12*time.Second, 32)
+	specP := harness.NewSpec(32, nil)
+	inner, err := bidbest.New(ctx, bidbest.WithLogLevel(zerolog.Disabled), bidbest.WithMonitor(nullmetrics.New()), bidbest.WithSpecProvider(specP), bidbest.WithDomainProvider(harness.RecDomains{}),
+		bidbest.WithChainTime(clock), bidbest.WithTimeout(timeout), bidbest.WithReleaseVersion("verif"))
+	if err != nil {
+		c.Inconclusive("cannot build strategy: " + err.Error())
+		return
+	}
+	acct := harness.NewAcct(harness.KindPlain, "W", "c09s", 1510+uniq%4, phase0.ValidatorIndex(7100+uniq%4), nil)
+	env, err := relaycommon.NewEnvWith([]harness.Acct{acct}, 0, relaycommon.Outcome{Kind: "error"}, &relaycommon.Bidder{Inner: inner}, map[phase0.BLSPubKey]*blockrelay.BuilderConfig{})
+	if err != nil {
+		c.Inconclusive("cannot build block relay: " + err.Error())
+		return
+	}
+	addrA, addrB := fmt.Sprintf("http://serveA%d-%d.example.com/", c.Batch, uniq), fmt.Sprintf("http://serveB%d-%d.example.com/", c.Batch, uniq)
+	env.Config.Set(relaycommon.Outcome{Kind: "valid", Doc: fmt.Sprintf(`{"version":2,"fee_recipient":"0x0909090000000000000000000000000000000000","relays":{%q:{},%q:{}}}`, addrA, addrB)})
+	if !env.Refresh() {
+		c.Inconclusive("configuration fetch job missing")
+		return
+	}
+	now := time.Now()
+	slotStart := now.Truncate(time.Second)
+	clock.Genesis = slotStart.Add(-time.Duration(theSlot) * 12 * time.Second)
+	bad := []*harness.BidSpec{{Value: 5000, Builder: 1, Header: 3, BadTime: true}, {Value: 5000, Builder: 1, Header: 3, ZeroFeeRec: true}, nil}[r.Intn(3)]
+	mk := func(addr string, keyNo int, lat time.Duration, steps ...any) *harness.Relay {
+		rl := &harness.Relay{Addr: addr, KeyNo: keyNo, Start: now, SlotTS: uint64(slotStart.Unix()), Parent: parent, Latency: lat}
+		for i := 0; i < len(steps); i += 2 {
+			b, _ := steps[i+1].(*harness.BidSpec)
+			rl.Steps = append(rl.Steps, struct {
+				At  time.Duration
+				Bid *harness.BidSpec
+				Err bool
+			}{steps[i].(time.Duration), b, b == nil})
+		}
+		util.VerifSetBuilderClient(addr, rl)
+		return rl
+	}
+	slow := time.Duration(200+r.Intn(200)) * time.Millisecond
+	relayA := mk(addrA, 0, slow, time.Duration(0), bad)
+	relayB := mk(addrB, 1, 0, time.Duration(0), bad, slow/2, &harness.BidSpec{Value: 9000, Builder: 2, Header: 9})
+	callers := 2 + r.Intn(3)
+	var wg sync.WaitGroup
+	type ans struct {
+		bid bool
+		err error
+	}
+	answers := make([]ans, callers)
+	for k := 0; k < callers; k++ {
+		wg.Add(1)
+		go func(k int) {
+			defer wg.Done()
+			time.Sleep(time.Duration(k) * 10 * time.Millisecond)
+			b, err := env.Svc.BuilderBid(ctx, theSlot, parent, acct.Pub48())
+			answers[k] = ans{b != nil, err}
+		}(k)
+	}
+	done := make(chan struct{})
+	go func() { wg.Wait(); close(done) }()
+	select {
+	case <-done:
+	case <-time.After(15 * time.Second):
+		c.Violate("serve-never-returns", "concurrent bid requests to the block relay did not return within 15 s", id, nil)
+		return
+	}
+	nA, nB := len(relayA.ServedSnapshot()), len(relayB.ServedSnapshot())
+	detail := map[string]any{"callers": callers, "answers": fmt.Sprint(answers), "requests_to_slow_relay": nA, "requests_to_fast_relay": nB, "slow_relay_latency_ms": slow.Milliseconds()}
+	c.Count("concurrent_serve_cases", 1)
+	for k, a := range answers {
+		if a.bid {
+			c.Violate("served-bid-without-winner:concurrent-requests", fmt.Sprintf("the auction for the slot found no acceptable bid, yet caller %d of %d concurrent ones was served a bid (one that only appeared while the auction was under way)", k, callers), id, detail)
+			return
+		}
+	}
+	if nA > 1 || nB > 1 {
+		c.Violate("second-auction-for-one-request:concurrent-requests", fmt.Sprintf("%d concurrent requests for the same slot, parent and proposer led to %d / %d bid requests to the two relays: more than one auction was held", callers, nA, nB), id, detail)
+	}
+	c.Distinct(fmt.Sprintf("serve|%d|%v", callers, bad == nil))
+}
+
 func run(c *harness.Ctx) {
 	harness.InitBLS()
 	for i := 0; i < 8; i++ { // key generation is slow: do it before any clock is started
@@ -518,6 +611,19 @@ func run(c *harness.Ctx) {
 			}()
 		})
 	}
+	ns := c.N(16, 400)
+	for i := 0; i < ns; i++ {
+		id := fmt.Sprintf("serve#%d", i)
+		c.Case(id, func() {
+			wg.Add(1)
+			sem <- struct{}{}
+			go func() {
+				defer wg.Done()
+				defer func() { <-sem }()
+				concurrentServe(c, id, c.Rand("serve", i), i)
+			}()
+		})
+	}
 	wg.Wait()
 }
 
@@ -525,7 +631,7 @@ func main() {
 	harness.Main(&harness.Spec{
 		Property:     "C09",
 		Level:        "exploration",
-		Rule:         "auctions over 1-6 scripted relays: bids with values 1000-12000, 4 builders with random {factor 0 (excluded) / factor / offset / both / none} configs, shared payload headers, relay minimum values, zero fee recipient, wrong timestamp, bad signature (relay key known from config, from the provider, or unknown), empty and nil bids, latencies fast / 600 ms / 1080 ms / silent / error against a 0.8 s deadline; deadline strategy polled every 100 ms with bids that change at 350 ms (improving or worsening); bids signed with real BLS keys; one best-strategy auction in ten goes through the real block relay service (settings from its configuration document) and the bid it then serves is compared with the winner. distinct = (strategy, multiset of relay (latency, eligibility, second bid) classes, configured builders); non-trivial = >=2 relays and >=1 eligible bid",
+		Rule:         "auctions over 1-6 scripted relays: bids with values 1000-12000, 4 builders with random {factor 0 (excluded) / factor / offset / both / none} configs, shared payload headers, relay minimum values, zero fee recipient, wrong timestamp, bad signature (relay key known from config, from the provider, or unknown), empty and nil bids, latencies fast / 600 ms / 1080 ms / silent / error against a 0.8 s deadline; deadline strategy polled every 100 ms with bids that change at 350 ms (improving or worsening); bids signed with real BLS keys; one best-strategy auction in ten goes through the real block relay service (settings from its configuration document) and the bid it then serves is compared with the winner; 2-4 concurrent bid requests for a proposer without auction, whose only acceptable bid appears while the first auction is under way, must all be answered with no bid after one auction. distinct = (strategy, multiset of relay (latency, eligibility, second bid) classes, configured builders); non-trivial = >=2 relays and >=1 eligible bid",
 		Batches:      func(string) int { return 2 },
 		Parallel:     2,
 		Run:          run,
